@@ -1,0 +1,34 @@
+//go:build verif
+
+package translator
+
+// Contracts for govc (see /verif/DESIGN.md). Comment-only file: contributes no code.
+
+// ---- C14: the passthrough interface as seen by the handler.
+// native(ty): the profile of endpoint type ty declares native Anthropic support (a deterministic lookup).
+//@ interface ProfileLookup.GetAnthropicSupport
+//@   ensures res == purecall("ProfileLookup.GetAnthropicSupport", "*domain.AnthropicSupportConfig", endpointType)
+
+//@ interface PassthroughCapable.CanPassthrough
+//@   ensures res ==> len(endpoints) > 0
+
+// a prepared passthrough request carries the client's bytes unchanged; ptPath remembers the native path it names
+//@ ghost var ptPath string
+//@ interface PassthroughCapable.PreparePassthrough
+//@   modifies gvar ptPath
+//@   records ptPath = ite(res1 == nil, res0.TargetPath, old(ptPath))
+//@   ensures res1 == nil ==> res0 != nil && sameSlice(res0.Body, bodyBytes)
+//@   ensures res1 != nil ==> res0 == nil
+
+//@ interface RequestTranslator.Name
+
+// ---- C05: a translator's own error format: the response is started with exactly the given status
+//@ interface ErrorWriter.WriteError
+//@   requires w != nil && err != nil
+//@   modifies ghost started, ghost status, ghost(w).hdr[all], gvar lastEncoded, ghost encW
+//@   ensures forall x ref :: x != w ==> ghost(x).started == old(ghost(x).started) && ghost(x).status == old(ghost(x).status)
+//@   ensures ghost(w).started && (!old(ghost(w).started) ==> ghost(w).status == statusCode) && (old(ghost(w).started) ==> ghost(w).status == old(ghost(w).status))
+
+//@ interface RequestTranslator.TransformResponse
+//@ interface RequestTranslator.TransformRequest
+//@   ensures res1 == nil ==> res0 != nil
